@@ -48,7 +48,9 @@ Example C10_example_words :
   impl_op SIGNEXTEND 0 255 0 = 2 ^ 256 - 1 /\ impl_op SIGNEXTEND 31 255 0 = 255 /\
   impl_op ADDMOD (2 ^ 256 - 1) (2 ^ 256 - 1) (2 ^ 256 - 1) = 0 /\ impl_op MULMOD 5 5 0 = 0 /\
   impl_op EXP 3 (2 ^ 256 - 1) 0 = 77194726158210796949047323339125271902179989777093709359638389338608753093291.
-Proof. unfold word. repeat split; try (vm_compute; reflexivity); vm_compute; discriminate. Qed.
+Proof.
+  unfold word. repeat (match goal with |- _ /\ _ => split end); try (vm_compute; reflexivity); vm_compute; discriminate.
+Qed.
 
 (* PUSH2 0x5b5b; JUMPDEST; PUSH1 (truncated): offset 3 is a destination, offsets 1 and 2 are push data. *)
 Example C10_example_jumpdest :
@@ -56,6 +58,6 @@ Example C10_example_jumpdest :
   clen c <= U64 /\ valid_jumpdest c 3 = true /\ valid_jumpdest c 1 = false /\ valid_jumpdest c 2 = false /\
   valid_jumpdest c 5 = false /\ valid_jumpdest c (U64 + 3) = false /\ boundary c 3.
 Proof.
-  cbv zeta. repeat split; try (vm_compute; congruence).
+  cbv zeta. repeat (match goal with |- _ /\ _ => split end); try (vm_compute; reflexivity); try (vm_compute; discriminate).
   change 3 with (0 + 1 + push_len (cnth [97; 91; 91; 91; 96] 0)). apply boundary_next; [apply boundary_0|vm_compute; reflexivity].
 Qed.
